@@ -750,6 +750,10 @@ impl World {
                 let contact = if r.to < self.nodes.len() {
                     let to = &self.nodes[r.to];
                     if r.with_enr { NodeContact::try_from_enr(to.enr.clone(), if self.cfg.ipv6 { IpMode::Ip6 } else { IpMode::Ip4 }).unwrap() } else { NodeContact::new(to.enr.public_key(), to.addr, None) }
+                } else if r.to == 8 {
+                    // the crafted peer dialled at a second port of its address (no record)
+                    let (enr, addr, _) = self.cfg.ghost.clone().expect("ghost peer");
+                    NodeContact::new(enr.public_key(), SocketAddr::new(addr.ip(), addr.port() + 1), None)
                 } else {
                     let (enr, addr, _) = self.cfg.ghost.clone().expect("ghost peer");
                     if r.with_enr { NodeContact::new(enr.public_key(), addr, Some(enr)) } else { NodeContact::new(enr.public_key(), addr, None) }
